@@ -43,8 +43,18 @@ FAULTS = [
     ("text-without-table", ".text 'hello'"), ("ram-branch", "zz_here:\n@=0x7e0000\nbra zz_here"),
     ("code-lookup", "{{zz_nocode}}"), ("struct", ".struct zz_s {\n}"), ("value-too-wide", "lda.l 0x1000000"),
     ("unknown-operator", ".db 1 == 1"), ("map-missing-field", ".map identifier=9"),
+    ("branch-range-plus128", "bne zz_f128\n.incbin 'pad128.bin'\nzz_f128:"),
+    ("branch-range-minus129", "zz_b129:\n.incbin 'pad127.bin'\nbcc zz_b129"),
+    # the same kinds of error inside a file brought in with .include
+    ("included:bad-index", ".include 'inc_badindex.s'"), ("included:unterminated-string", ".include 'inc_string.s'"),
+    ("included:syntax", ".include 'inc_syntax.s'"), ("included:undefined", ".include 'inc_undef.s'"),
+    ("included:nested-bad-suffix", ".include 'inc_outer.s'"),
 ]
-FILES = {"pad200.bin": [0xEA] * 200, "bad.ips": list(b"PATCH\x00\x00\x10\x00\x05ab")}
+FILES = {"pad200.bin": [0xEA] * 200, "pad128.bin": [0xEA] * 128, "pad127.bin": [0xEA] * 127,
+         "bad.ips": list(b"PATCH\x00\x00\x10\x00\x05ab"),
+         "inc_badindex.s": "nop\nlda 0x10,z\nrts\n", "inc_string.s": "nop\n.ascii 'oops\nrts\n",
+         "inc_syntax.s": "nop\nlda (1\nrts\n", "inc_undef.s": "nop\n.dw zz_never_defined\n",
+         "inc_outer.s": "nop\n.include 'inc_inner.s'\nrts\n", "inc_inner.s": "lda.q #1\n"}
 
 
 def cases(ctx):
@@ -69,7 +79,11 @@ def cases(ctx):
                 fault = "*=0x200000\nnop"
             src = "\n".join(lines[:pos] + [fault] + lines[pos:])
             fmt = rng.choice(["ips", "sfc"])
-            c = {"kind": f"fault:{kind}", "rom": rom, "mapping": rom, "src": src, "files": dict(FILES), "format": fmt,
+            # only the files this fault opens (the model reports the first listed include whose scan fails)
+            files = {k: v for k, v in FILES.items() if k in fault}
+            if "inc_outer.s" in files:
+                files["inc_inner.s"] = FILES["inc_inner.s"]
+            c = {"kind": f"fault:{kind}", "rom": rom, "mapping": rom, "src": src, "files": files, "format": fmt,
                  "copier": fmt == "ips" and rng.random() < 0.3, "api": True, "count_empty": True,
                  "spec": {"t": "c14", "must_fail": True}}
             if cli_budget > 0 and rng.random() < 0.5:
